@@ -340,12 +340,19 @@ def source_rules(rep, n, samples):
     cur = panic_sites()
     spec = json.load(open(spec_p))["sites"] if os.path.exists(spec_p) else []
     from collections import Counter
-    cs, cc = Counter(tuple(x) for x in spec), Counter(tuple(x) for x in cur)
+    # counted per (file, kind, expression skeleton): a site that moves into a helper function of the same file is the
+    # same site; a new one raises the count of its skeleton
+    cs = Counter((x[0], x[2], x[3]) for x in spec)
+    cc = Counter((x[0], x[2], x[3]) for x in cur)
+    where_ = {}
+    for x in cur:
+        where_.setdefault((x[0], x[2], x[3]), x[1])
     for site, cnt in cc.items():
         n["rules"] += 1
         if cnt > cs.get(site, 0):
-            rep.add(f"C10|panic-site|new|{site[0]}|{site[1]}|{site[2]}", f"new panic-capable site in a stage that handles "
-                    f"arbitrary input: {site[1]}: {site[2]} on `{site[3]}` (not in the confirmed inventory)", f"{site[0]}:{site[1]}")
+            rep.add(f"C10|panic-site|new|{site[0]}|{site[1]}", f"new panic-capable site in a stage that handles "
+                    f"arbitrary input: {where_[site]}: {site[1]} on `{site[2]}` ({cnt} now, {cs.get(site, 0)} in the confirmed "
+                    f"inventory)", f"{site[0]}:{where_[site]}")
     samples.append({"rule": "panic-site inventory", "sites": len(cur)})
 
 
